@@ -82,14 +82,16 @@ def call_verdicts(repo: Repo, fi: FuncInfo, oracle=None) -> dict[int, list]:
     return out
 
 
-def resolve_func(t, defs):
-    """AST of the local function a term denotes (def name, partial(def, ..), lambda)"""
+def resolve_func(t, defs, repo=None, module: str = "multi"):
+    """AST of the local function a term denotes (def name, partial(def, ..), lambda, module-level function)"""
     if t[0] == "func":
         return defs.get(t[1])
+    if t[0] == "sym" and repo is not None and repo.has_func(f"{module}.{t[1]}"):
+        return repo.func(f"{module}.{t[1]}").node
     if t[0] == "lambda":
         return defs.get(t[1])
     if t[0] == "pcall" and t[1] in ("partial", "functools.partial") and t[2]:
-        return resolve_func(t[2][0], defs)
+        return resolve_func(t[2][0], defs, repo, module)
     return None
 
 
@@ -195,15 +197,20 @@ def check(ctx: Ctx) -> None:
     with ctx.obligation("C05.b", "kill-on-timeout") as ob:
         # the function safe_terminate runs in the pool for each (term, kill) pair
         evs = evaluator(repo, fs)
-        tkname = None
+        tkq = None
+        tkargs: tuple = ()
         for _p, st in all_paths(evs):
             for e in st.calls("spawn"):
-                if len(e.args) == 3 and e.args[0][0] == "func":
-                    tkname = e.args[0][1]
-        ob.require(tkname is not None and repo.has_func(f"multi.safe_terminate.{tkname}"), "safe_terminate: the per-pair function handed to the pool (spawn(termkill, termfunc, killfunc)) not found")
-        tk = repo.func(f"multi.safe_terminate.{tkname}")
-        ob.require(len(tk.params()) == 2, "termkill does not take (termfunc, killfunc)")
-        termp, killp = tk.params()
+                if len(e.args) >= 3 and e.args[0][0] == "func" and repo.has_func(f"multi.safe_terminate.{e.args[0][1]}"):
+                    tkq, tkargs = f"multi.safe_terminate.{e.args[0][1]}", e.args[1:]
+                elif len(e.args) >= 3 and e.args[0][0] == "sym" and repo.has_func(f"multi.{e.args[0][1]}"):
+                    tkq, tkargs = f"multi.{e.args[0][1]}", e.args[1:]   # a module-level function instead of a closure
+        ob.require(tkq is not None, "safe_terminate: the per-pair function handed to the pool (spawn(termkill, termfunc, killfunc)) not found")
+        tk = repo.func(tkq)
+        ob.require(len(tk.params()) == len(tkargs) >= 2, "termkill does not take (.., termfunc, killfunc)")
+        termp, killp = tk.params()[-2:]
+        # values handed in explicitly instead of being captured: the pool and the timeout
+        to_param = next((pn for pn, a in zip(tk.params(), tkargs) if a == ("sym", "timeout")), "timeout")
         evk = evaluator(repo, tk, Oracle(repo, tk, precise=True, call_raises=lambda c, f: [("OSError", True)] if callee_attr(c) == "get" else None))
         nget = ntimeout = 0
         for path, st in all_paths(evk):
@@ -219,7 +226,7 @@ def check(ctx: Ctx) -> None:
             g = gets[0]
             nget += 1
             tt = g.arg(0, "timeout")
-            if tt is None or not term_derived(tt, st.cond[:g.ncond], "timeout"):
+            if tt is None or not term_derived(tt, st.cond[:g.ncond], to_param):
                 ob.violation(tk, g.node, "the wait for the terminate function is not bounded by the timeout: a stuck child is never killed (the kill arm is never reached)")
             if g.raised:
                 ntimeout += 1
@@ -258,7 +265,7 @@ def check(ctx: Ctx) -> None:
             ob.require(len(rets) == 1, "terminate: pair helper has no single return value")
             elt, defs = rets[0]
         ob.require(elt[0] == "tuple" and len(elt) == 3, "terminate: (terminate, kill) pair not found")
-        fj, fk = resolve_func(elt[1], defs), resolve_func(elt[2], defs)
+        fj, fk = resolve_func(elt[1], defs, repo), resolve_func(elt[2], defs, repo)
         ob.site(where, e.node, "(term, kill) pair", pair=[show(elt[1]), show(elt[2])])
         ob.require(fj is not None and fk is not None, "terminate: the functions of the (terminate, kill) pair do not resolve to local functions")
 
